@@ -12,22 +12,13 @@ def fresh_name(base):
     return "%s!%d" % (base, next(_ctr))
 
 
-class Unsupported(Exception):
-    """Construct outside the supported subset -> UNDECIDED, never a verdict."""
-
-
-class ContractError(Exception):
-    """Sidecar contract does not match the code (renamed variable...) -> UNDECIDED."""
+from .kinds import Unsupported, ContractError, is_ref_kind, parse_kind  # noqa: E402,F401
 
 
 # ---------------------------------------------------------------- kinds
 # scalar kinds: 'int' 'real' 'bool' 'val' 'none' 'str'
 # ('list', ek) ('arr', ndim, ek) ('obj', cls) ('set',) ('tuple', [kinds]) ('func',)
 # ('opaque', name)  -- uninterpreted library object (pool, task, callable)
-
-def is_ref_kind(k):
-    return isinstance(k, tuple) and k[0] in ('list', 'arr', 'obj', 'set', 'opaque')
-
 
 def sort_of(k):
     if k == 'int':
@@ -79,38 +70,6 @@ def tuple_term(v):
 def tuple_val(kind, term):
     srt = tuple_sort(kind[1])
     return Val(kind, term, [Val(k, srt.accessor(0, n)(term)) for n, k in enumerate(kind[1])])
-
-
-def parse_kind(s):
-    """'int' | 'real' | 'list[int]' | 'arr2[real]' | 'obj:ModelState' | 'list[obj:X]' | 'tuple[a,b]'"""
-    if not isinstance(s, str):
-        return s
-    s = s.strip()
-    if s in ('int', 'real', 'bool', 'val', 'none', 'str'):
-        return s
-    if s == 'set':
-        return ('set',)
-    if s.startswith('obj:'):
-        return ('obj', s[4:])
-    if s.startswith('opaque:'):
-        return ('opaque', s[7:])
-    if s.startswith('list[') and s.endswith(']'):
-        return ('list', parse_kind(s[5:-1]))
-    if s.startswith('arr1[') or s.startswith('arr2[') or s.startswith('arr3['):
-        return ('arr', int(s[3]), parse_kind(s[5:-1]))
-    if s.startswith('tuple[') and s.endswith(']'):
-        parts, depth, cur = [], 0, ''
-        for ch in s[6:-1]:
-            if ch == ',' and depth == 0:
-                parts.append(cur)
-                cur = ''
-            else:
-                depth += ch == '['
-                depth -= ch == ']'
-                cur += ch
-        parts.append(cur)
-        return ('tuple', [parse_kind(p) for p in parts])
-    raise ContractError("bad kind %r" % s)
 
 
 class Val:
@@ -262,7 +221,7 @@ class State:
 
 
 class Obligation:
-    __slots__ = ('name', 'kind', 'fn', 'lineno', 'hyps', 'goal', 'trail', 'props', 'expect_sat', 'hints')
+    __slots__ = ('name', 'kind', 'fn', 'lineno', 'hyps', 'goal', 'trail', 'props', 'expect_sat', 'hints', 'seq')
 
     def __init__(self, name, kind, fn, lineno, hyps, goal, trail=(), props=(), expect_sat=False, hints=()):
         self.name, self.kind, self.fn, self.lineno = name, kind, fn, lineno
